@@ -126,7 +126,9 @@ def run(ctx):
     nsim = 600 if quick else 3000
     depth = 14 if quick else 18
     threads = [
-        # the design: contract invariants and action properties over every interleaving (VIEW hides the history)
+        # the design: contract invariants and action properties over every interleaving (VIEW hides the history); quick uses
+        # scaled constants (segment 10 bytes, max sizes 19/20/24, batches of 7) so that two batches already reach segment
+        # roll-over and ErrQueueFull; thorough uses the production constants with three batches
         tlc_job('mc', f'ReplManager.MC_{tier}.cfg', timeout=tmo, coverage=True),
         # the contract is sensitive: with run() as found (no pass over the queue when the goroutine starts) TLC must find a
         # queue that holds batches after Start with nothing forwarding them
@@ -321,5 +323,7 @@ META = {
             'Finding on the unchanged tree: batches left in a queue across a restart were not forwarded until the next local write '
             '(run() waited for a notification); repaired in /repo by one initial pass in run(); Lead_strand.cfg keeps the as-found model.',
     'technique': 'TLA+ spec (ReplManager.tla) + TLC exhaustive/simulation + replay of TLC histories on the real queue manager',
-    'quick_s': 150, 'thorough_s': 1000,
+    # measured on the shared 16-core sandbox with VERIF_NCPU=4 while other agents kept the load average at 35-80:
+    # quick 190-330 s (TLC start-up dominates; the same run took 144 s at load 20), thorough 540-700 s
+    'quick_s': 150, 'thorough_s': 700,
 }
